@@ -19,6 +19,7 @@ type idxFacts struct {
 	valuesField  *types.Var            // ecolumn.Column.values
 	storageParam map[*ssa.Parameter]bool
 	pParam       map[*ssa.Parameter]bool
+	lParam       map[*ssa.Parameter]bool // int parameters used as logical row numbers
 	missing      []string
 }
 
@@ -44,7 +45,7 @@ func (p *Prog) idxFacts() *idxFacts {
 	if p.idx != nil {
 		return p.idx
 	}
-	f := &idxFacts{p: p, storageField: map[*types.Var]string{}, storageParam: map[*ssa.Parameter]bool{}, pParam: map[*ssa.Parameter]bool{}}
+	f := &idxFacts{p: p, storageField: map[*types.Var]string{}, storageParam: map[*ssa.Parameter]bool{}, pParam: map[*ssa.Parameter]bool{}, lParam: map[*ssa.Parameter]bool{}}
 	for _, cp := range columnPkgs {
 		fieldName := "data"
 		if cp == "internal/scolumn" {
@@ -204,6 +205,13 @@ func (f *idxFacts) infer() {
 			eachInstr(fn, func(in ssa.Instruction) {
 				switch t := in.(type) {
 				case *ssa.IndexAddr:
+					// an int parameter used to index a row index is a logical-row parameter
+					if bt := stripSliceOps(t.X).Type(); isIntIndexType(bt) || isBoolIndex(bt) {
+						if pr, ok := t.Index.(*ssa.Parameter); ok && !f.lParam[pr] {
+							f.lParam[pr] = true
+							changed = true
+						}
+					}
 					// a uint32 parameter used to index storage is a position parameter
 					if f.isStorage(t.X) {
 						if pr, ok := stripConv(t.Index).(*ssa.Parameter); ok && isUint32(pr.Type()) && !f.pParam[pr] {
@@ -222,6 +230,12 @@ func (f *idxFacts) infer() {
 							if f.isStorage(a) && !f.storageParam[prm] {
 								f.storageParam[prm] = true
 								changed = true
+							}
+							if f.lParam[prm] {
+								if pr, ok := a.(*ssa.Parameter); ok && !f.lParam[pr] {
+									f.lParam[pr] = true
+									changed = true
+								}
 							}
 							// caller's position parameter is inferred from the callee's
 							if f.pParam[prm] {
@@ -313,7 +327,7 @@ func rangeKeyOf(idx ssa.Value, base ssa.Value) bool {
 
 func init() {
 	register(&Rule{ID: "R6", Name: "IDX-SPACE", Floor: 150,
-		Text: "logical row numbers are int, physical positions are uint32 values read from an index.Int: (P) every element access on column storage ({i,f,b,e}column data, scolumn pointers, and slice parameters that receive them) is indexed by a position (element of an index.Int, a position parameter, tableEntry.firstPos, a phi of those) or by the key of a range over that same slice; (L) every access to an index.Int/index.Bool is indexed by an int that is not a converted position; (6a) every argument bound to an inferred position parameter is a position",
+		Text: "logical row numbers are int, physical positions are uint32 values read from an index.Int: (P) every element access on column storage ({i,f,b,e}column data, scolumn pointers, and slice parameters that receive them) is indexed by a position (element of an index.Int, a position parameter, tableEntry.firstPos, a phi of those) or by the key of a range over that same slice; (L) every access to an index.Int/index.Bool is indexed by an int that is not a converted position; (6a) every argument bound to an inferred position parameter is a position; (6e) no (converted) position is bound to an inferred logical-row parameter",
 		Run:  runR6})
 	register(&Rule{ID: "R7", Name: "IDX-PROV", Floor: 10,
 		Text: "every uint32 written into an index.Int (element store, append, composite literal) or into tableEntry.firstPos is a position in the sense of R6: derived indexes contain only positions read from the parent index (frozen exceptions: index.NewAscending, QFrame.Append)",
@@ -372,6 +386,15 @@ func runR6(c *Ctx) {
 						continue
 					}
 					for i, a := range args {
+						if f.lParam[callee.Params[i]] {
+							// (6e) a logical-row parameter must not receive a (converted) physical position
+							key := fnm + "|L-arg to " + fname(callee) + "." + callee.Params[i].Name()
+							if f.isP(stripConvInt(a)) {
+								c.bad(key, p.instrPos(t), fmt.Sprintf("a physical position (%s) is passed where %s expects a logical row number: the row is translated through the index twice", describe(a), fname(callee)))
+							} else {
+								c.okTrivial(key, p.instrPos(t), "logical row number")
+							}
+						}
 						if !f.pParam[callee.Params[i]] {
 							continue
 						}
